@@ -74,13 +74,16 @@ Shape(d, k) ==
        \* "X": an update that re-commits to the DID's FIRST update key (4) - well-formed, accepted by intake, but ignored by
        \* resolution while commitment 4 has already been consumed in the current chain (C12 end to end)
        [] k = "X" -> [ty |-> "U", rk |-> c.uk, sig |-> "ok", nuc |-> 4, nrc |-> 0, dl |-> "ok", win |-> "none", p |-> p, sfx |-> "ok"]
+       \* "B": a create that passes validation but whose response cannot be built (a key the transformer cannot convert):
+       \* the handler refuses it - and a refused operation leaves no trace (C15)
+       [] k = "B" -> [ty |-> "C", rk |-> 0, sig |-> "ok", nuc |-> 4, nrc |-> 1, dl |-> "ok", win |-> "none", p |-> d * 100 + 99, sfx |-> "ok"]
        [] k = "R" -> [ty |-> "R", rk |-> c.rk, sig |-> "ok", nuc |-> c.uk + 1, nrc |-> c.rk + 1, dl |-> "ok", win |-> "none", p |-> p, sfx |-> "ok"]
        [] k = "D" -> [ty |-> "D", rk |-> c.rk, sig |-> "ok", nuc |-> 0, nrc |-> 0, dl |-> "ok", win |-> "none", p |-> 0, sfx |-> "ok"]
 
 (* the client keeps submitting after its own deactivate (C04: intake must refuse) *)
 ClientCan(d, k) ==
   LET c == client[d] IN
-  /\ IF k = "C" THEN ~c.created ELSE c.created
+  /\ IF k \in {"C", "B"} THEN ~c.created ELSE c.created
   /\ c.uk < 8 /\ c.rk < 3
   /\ k = "X" => c.uk # 4          \* re-committing to the key being revealed is refused by intake (C12), not modelled here
 
@@ -94,7 +97,7 @@ ClientAfter(d, k) ==
 
 (* intake accepts a create always; anything else only if the DID currently resolves and is not deactivated *)
 IntakeAccepts(d, k) ==
-  k = "C" \/ (Resolved(d).exists /\ ~Resolved(d).deact)
+  k # "B" /\ (k = "C" \/ (Resolved(d).exists /\ ~Resolved(d).deact))
 
 Submit(d, k, addFails) ==
   /\ nsub < MaxSubmits /\ ClientCan(d, k)
@@ -189,7 +192,7 @@ ResolveHist ==
   /\ H([a |-> "ResolveHist"])
   /\ UNCHANGED <<client, queue, unpub, ledger, observed, store, curver, nsub, faults, deferredEver>>
 
-Next == \/ \E d \in Dids, k \in {"C", "U", "X", "R", "D"}, af \in BOOLEAN : Submit(d, k, af)
+Next == \/ \E d \in Dids, k \in {"C", "B", "U", "X", "R", "D"}, af \in BOOLEAN : Submit(d, k, af)
         \/ \E fl \in BOOLEAN : Flush(fl)
         \/ Garbage \/ Dup
         \/ \E f \in {"none", "cas", "put"} : Observe(f)
